@@ -26,7 +26,11 @@ type Universe struct {
 
 // name ids are 1-based ranks in sorted order.  Names starting with 'r' use
 // the reverse comparator when a comparator callback is installed.
-var defaultNames = []string{"a", "b\x00c", "r-rev", "z z"}
+var defaultNames = []string{"a", "b\x00c", "r-rev", "z z", flipName}
+
+// flipName is only used by the comparator-flip burst (seq op "cmpflip"): no
+// other operation picks it, so its orientation can change during a history.
+const flipName = "q-flip"
 
 func reverseCompare(a, b []byte) int { return bytes.Compare(b, a) }
 
